@@ -1045,7 +1045,7 @@ fn main() {
             if entry == "vw" {
                 opts = opts.with_variable_line_width(0);
             }
-            // (a vertex offset is safe since lyon 4ae25521: no VertexId::INVALID reaches add_triangle)
+            // (a vertex offset is safe since lyon 85d83d35: no VertexId::INVALID reaches add_triangle)
             let spec = SinkSpec::gen(rng, true);
             let shape = (
                 point(rng.range(-4, 4) as f32, rng.range(-4, 4) as f32),
